@@ -25,6 +25,10 @@ def run(ctx: Context) -> None:
     ctx.rule('R12.3', "one depth dimension throughout: skip test, spatial dimension set, floor search, the isel that picks the floor; all variables of a group are indexed by the one floor array; the reduced group overrides the originals; depth dimensions are dropped", floor=9)
     ctx.rule('R12.4', "Convention methods that read the optional time coordinate for another purpose tolerate its absence", floor=3)
     ctx.rule('R12.5', "the normalisation ocean_floor relies on is sound: ordering is read from the copy's current values with the current sign, and a mismatch reverses the whole dataset (shared with C13 R13.3-R13.5)", floor=10)
+    ctx.rule('R12.7', "the accessor finds depth and time variables among all variables of the dataset (a coordinate the file does not flag is a plain variable), and hands the reduction the time coordinate as the only non-spatial variable", floor=6)
+    from . import infra as _infra
+    _infra.lookup_namespace(ctx, 'R12.7', ['depth_coordinates', 'depth_coordinate', 'time_coordinate'])
+    _infra.wrapper_non_spatial(ctx, 'R12.7')
     from .common import adopt_foundations as _adopt
     _adopt(ctx, 'R12.6', ['order'], floor=60)
     ctx.assume("NOT decided: NaN semantics of cumsum/argmax, all-NaN columns, static sea floor across the variables of a group - run-time numerical facts")
